@@ -123,8 +123,8 @@ func TestVerifC08Race(t *testing.T) {
 	close(start)
 	wg.Wait()
 	// Second phase: requests HELD by a pause when two stop commands arrive together (same message), round after round.
-	// Every held request must be answered 503 with the message soon after; a request still unanswered 5 s later is
-	// reported as such (status -2).
+	// Every held request must be answered 503 with the message soon after; a request still unanswered 30 s later is
+	// reported as such (status -2; the wait is long so that a starved machine is not taken for a stuck proxy).
 	heldMsg := msgs["plain.test"]
 	msgs["held.test"] = heldMsg
 	hosts = append(hosts, "held.test")
@@ -163,7 +163,7 @@ func TestVerifC08Race(t *testing.T) {
 			}()
 		}
 		got := 0
-		deadline := time.After(5 * time.Second)
+		deadline := time.After(30 * time.Second)
 	collect:
 		for got < waiters {
 			select {
@@ -175,7 +175,7 @@ func TestVerifC08Race(t *testing.T) {
 			}
 		}
 		if got < waiters {
-			seen[answer{host: "held.test", status: -2, body: fmt.Sprintf("%d of %d held requests still unanswered 5 s after the stop (round %d)", waiters-got, waiters, round)}]++
+			seen[answer{host: "held.test", status: -2, body: fmt.Sprintf("%d of %d held requests still unanswered 30 s after the stop (round %d)", waiters-got, waiters, round)}]++
 			break // the controller is stuck: commands would hang too
 		}
 		cw.Wait()
